@@ -315,6 +315,9 @@ def main(argv=None):
             from pyvc.crosscheck import run as _cross
 
             crosscheck = _cross(seed, 3 if a.tier == "quick" else 40, REPO)
+            # the same cases with every integer argument a *symbolic* value pinned by an assumption (symbolic code paths)
+            for label, row in _cross(seed, 3 if a.tier == "quick" else 25, REPO, symbolic=True).items():
+                crosscheck[label + " [symbolic inputs]"] = row
             for label, row in crosscheck.items():
                 if row["disagreements"]:
                     broken.append(("interpreter-crosscheck", {}, f"the interpreter disagrees with CPython on {label}: {row['disagreements'][0]}"))
